@@ -1,0 +1,73 @@
+//go:build verif
+
+// Contracts for package alert (service), read by /verif/engine (govc). Comments only.
+package alert
+
+// ---------------------------------------------------------------- service.go (C08)
+// "every alert ID resumes at the last non-OK level that was recorded for it (IDs whose last event
+// was OK resume as OK)": what the service writes to the topic store for an event. The store's
+// transactions are atomic (C15 slice); this is the rule that decides, per collected event, which
+// single write the transaction contains.
+//@ func =(*github.com/influxdata/kapacitor/alert.Topics).Collect
+//@   trusted
+//@   modifies nothing
+//@ func =(*github.com/influxdata/kapacitor/alert.Topics).Topic
+//@   trusted
+//@   modifies nothing
+//@ func (*Service).restoreClosedTopic
+//@   trusted
+//@   modifies map(s.closedTopics)
+//@ func =(github.com/influxdata/kapacitor/services/storage.Interface).Update
+//@   trusted
+//@   modifies nothing
+//@ func =(github.com/influxdata/kapacitor/services/storage.Tx).Bucket
+//@   trusted
+//@   modifies nothing
+//@ func convertEventStateFromAlert
+//@   trusted
+//@   modifies nothing
+//@   ensures result != nil
+//@ func (*EventState).MarshalJSON
+//@   trusted
+//@   modifies nothing
+
+// Collect: the event goes to the in-memory topic first; if that fails nothing is written. Then,
+// with persistence on, an OK event (level 0) deletes the ID's stored state (and writes nothing), any other
+// event stores its state; the result is the write's result.
+//@ func (*Service).Collect
+//@   props C08
+//@   requires s != nil && s.topics != nil && s.topicsStore != nil
+//@   ensures [restore-failed] !called(Collect) ==> !called(clearHistory) && !called(persistEventState)
+//@   ensures [memory-first] called(Collect) && callresult(Collect, 0) != nil ==> result == callresult(Collect, 0) && !called(clearHistory) && !called(persistEventState)
+//@   ensures [ok-deletes] called(Collect) && callresult(Collect, 0) == nil && event.State.Level == 0 && s.PersistTopics ==> called(clearHistory) && !called(persistEventState)
+//@       && callarg(clearHistory, 0) != nil && callarg(clearHistory, 0).Topic == event.Topic && callarg(clearHistory, 0).State.ID == event.State.ID
+//@       && ((result == nil) == (callresult(clearHistory, 0) == nil))
+//@   ensures [other-persists] called(Collect) && callresult(Collect, 0) == nil && !(event.State.Level == 0 && s.PersistTopics) ==> called(persistEventState) && !called(clearHistory)
+//@       && callarg(persistEventState, 0) == event && result == callresult(persistEventState, 0)
+
+// persistEventState: nothing without persistence or for a topic deleted meanwhile; otherwise one
+// store update whose result is returned.
+//@ func (*Service).persistEventState
+//@   props C08
+//@   requires s != nil && s.topics != nil && (s.PersistTopics ==> s.topicsStore != nil)
+//@   modifies nothing
+//@   ensures !s.PersistTopics ==> result == nil && !called(Update)
+//@   ensures s.PersistTopics && !callresult(Topic, 1) ==> result == nil && !called(Update)
+//@   ensures s.PersistTopics && callresult(Topic, 1) ==> called(Update) && result == callresult(Update, 0)
+
+// The update of persistEventState: in the topic's bucket, the state is stored under the event's ID.
+//@ func (*Service).persistEventState$1
+//@   props C08
+//@   requires tx != nil
+//@   guardcall Put#1: arg0 == event.State.ID
+
+// The update of clearHistory: in the topic's bucket, the event's ID is deleted.
+//@ func (*Service).clearHistory
+//@   props C08
+//@   requires s != nil && s.topicsStore != nil && event != nil
+//@   modifies nothing
+//@   ensures called(Update) && result == callresult(Update, 0)
+//@ func (*Service).clearHistory$1
+//@   props C08
+//@   requires tx != nil && event != nil
+//@   guardcall Delete#1: arg0 == event.State.ID
